@@ -112,8 +112,11 @@ def run_case(case):
             check_output(case, ("ok", None), text, ref, "real processes, %d batches" % (len(case["gaf"]) // case["batch"]))
             return core.Result(True, ["real_processes", "many_batches"])
         if case.get("kind") == "real":
-            res, text = rc.run_realign(case, d, platform=None, sub="real.gaf")
-            check_output(case, res, text, ref, "real processes, cores=%d batch=%d" % (case["cores"], case["batch"]))
+            res, text = rc.run_realign_subprocess(case, d, case["cores"], case["batch"])
+            # these jobs take seconds: three minutes without an exit status is a deadlock
+            core.check(res[0] != "timeout", "real processes, cores=%d batch=%s: realign did not terminate within %s s (deadlock)",
+                       case["cores"], case["batch"] or "default", res[1])
+            check_output(case, res, text, ref, "real processes, cores=%d batch=%s" % (case["cores"], case["batch"] or "default"))
             return core.Result(case["cores"] >= 2, ["real_processes", "cores=%d" % case["cores"]])
         plat = fakemp.Platform(fakemp.Chooser(case["choices"]), stall=case.get("stall"))
         res, text = rc.run_realign(case, d, platform=plat, sub="sim.gaf", via=case.get("via", "api"))
